@@ -12,6 +12,8 @@ import (
 	"fmt"
 	"sort"
 	"strconv"
+	"sync"
+	"sync/atomic"
 	"testing"
 	"time"
 
@@ -55,7 +57,7 @@ func TestC19(t *testing.T) {
 		}
 		runCase(t, r, i)
 	}
-	r.Require("drops_observed", "kept_declared", "kept_fresh", "kept_pinned", "kept_no_expiry_age", "restarts", "polls", "reads", "payloads_checked", "kept_exactly_at_age", "handle_grabbed_during_poll_of_stale_secret")
+	r.Require("drops_observed", "kept_declared", "kept_fresh", "kept_pinned", "kept_no_expiry_age", "restarts", "polls", "reads", "payloads_checked", "kept_exactly_at_age", "handle_grabbed_during_poll_of_stale_secret", "racing_lookups")
 	r.Rule("seeded histories over 2 declarable + 4 undeclared names: a first process started from a crafted cache (last-access stamps incl. 0, stale, fresh, far future), then events {restart from the last payload with a new declared set and expiry age in {0,-1s,1s,1h,30d}; clock jump in {0, age-1s, age, age+1s, 10*age}; read through a handle; obtain a handle without reading; new watcher; lookup; service change; poll}. Distinct = (event kind, expiry-age class, what the poll dropped/kept and why)")
 }
 
@@ -106,10 +108,22 @@ func runCase(t *testing.T, r *evid.Run, idx int) {
 			decl = append(decl, names[2+rng.IntN(4)])
 		}
 		cache := &fakesvc.MonCache{Initial: doc}
-		tick := idleTicker{ch: make(chan time.Time)}
-		trace = append(trace, fmt.Sprintf("START incarnation %d: declared=%v age=%v now=%d cache=%s", inc, decl, age, now, doc))
-		st, err := setec.NewStore(context.Background(), setec.StoreConfig{Client: svc, Secrets: append([]string(nil), decl...), AllowLookup: true,
-			Cache: cache, PollTicker: tick, ExpiryAge: age, TimeNow: clock, Logf: func(string, ...any) {}})
+		// the poller either gets an injected ticker that never fires, or the built-in one with an interval
+		// far longer than this test (polls are explicit Refresh calls either way)
+		cfg := setec.StoreConfig{Client: svc, Secrets: append([]string(nil), decl...), AllowLookup: true,
+			Cache: cache, ExpiryAge: age, TimeNow: clock, Logf: func(string, ...any) {}}
+		tickerKind := []string{"injected", "built-in default interval", "built-in 24h", "built-in 1h"}[rng.IntN(4)]
+		switch tickerKind {
+		case "injected":
+			cfg.PollTicker = idleTicker{ch: make(chan time.Time)}
+		case "built-in 24h":
+			cfg.PollInterval = 24 * time.Hour
+		case "built-in 1h":
+			cfg.PollInterval = time.Hour
+		}
+		r.Distinct("ticker " + tickerKind)
+		trace = append(trace, fmt.Sprintf("START incarnation %d: declared=%v age=%v now=%d ticker=%s cache=%s", inc, decl, age, now, tickerKind, doc))
+		st, err := setec.NewStore(context.Background(), cfg)
 		if err != nil {
 			fail("newstore-fails", err.Error(), nil)
 			return
@@ -247,13 +261,40 @@ func runCase(t *testing.T, r *evid.Run, idx int) {
 					continue
 				}
 				n := cand[rng.IntN(len(cand))]
-				if _, err := st.LookupSecret(context.Background(), n); err != nil {
-					fail("lookup-fails", err.Error(), nil)
-					st.Close()
-					return
+				if rng.IntN(2) == 0 {
+					// several callers look the same new name up at the same moment
+					var lw sync.WaitGroup
+					var gate atomic.Bool
+					var lerr atomic.Value
+					for g := 0; g < 6; g++ {
+						lw.Add(1)
+						go func() {
+							defer lw.Done()
+							for !gate.Load() {
+							}
+							if _, err := st.LookupSecret(context.Background(), n); err != nil {
+								lerr.Store(err)
+							}
+						}()
+					}
+					gate.Store(true)
+					lw.Wait()
+					if e := lerr.Load(); e != nil {
+						fail("lookup-fails", e.(error).Error(), nil)
+						st.Close()
+						return
+					}
+					r.Count("racing_lookups", 1)
+					ev = "racing lookups " + n
+				} else {
+					if _, err := st.LookupSecret(context.Background(), n); err != nil {
+						fail("lookup-fails", err.Error(), nil)
+						st.Close()
+						return
+					}
+					ev = "lookup " + n
 				}
 				m[n] = &mstate{present: true, pinned: true, lastAccess: now}
-				ev = "lookup " + n
 			case x < 13: // service change (forces a cache write at the next poll)
 				ver[pick]++
 				svc.Set(pick, ver[pick], []byte(fmt.Sprintf("%s#%d", pick, ver[pick])))
